@@ -250,11 +250,14 @@ func checkC04(c c04Case) (*ev.Failure, c04Stats) {
 		if spec.Stop != 0 && msgs[i].Num+1 >= spec.Stop {
 			continue // nothing follows: resuming would ask for an empty range
 		}
+		if cur, err := bstream.CursorFromOpaque(msgs[i].Cursor); err != nil || !cur.IsOnFinalBlock() {
+			continue // the property speaks of the cursor of a delivered final block
+		}
 		rdir := dir
 		if c.ResumeFresh {
 			rdir = newDir()
 		}
-		cfg := world.Config{Dir: rdir, Seg: c.Seg, Workers: spec.Workers, Final: spec.Final, Steps: world.LinearChain(c.Head), JobOrder: spec.JobOrder}
+		cfg := world.Config{Dir: rdir, Seg: c.Seg, Workers: spec.Workers, Final: spec.Final, Steps: chainFor(spec, c.Head), JobOrder: spec.JobOrder}
 		R := world.Run(prog.Modules(), world.Request{Prod: spec.Prod, Start: int64(spec.Start), Stop: spec.Stop, Output: spec.Output, Cursor: msgs[i].Cursor}, cfg)
 		if c.ResumeFresh {
 			os.RemoveAll(rdir)
@@ -291,6 +294,7 @@ func runC04(t *testing.T, test string, all bool) {
 	r := ev.Get("C04", test)
 	rapid.Check(t, func(rt *rapid.T) {
 		c := genC04(rt, all)
+		r.Begin(c)
 		f, st := checkC04(c)
 		cl := []string{fmt.Sprintf("prod=%v", c.Run.Prod)}
 		if c.FailAt != 0 {
